@@ -120,7 +120,7 @@ def real_float_cases(rng):
 DEEP_REPL = mutants.UNRELATED + [am.VObj("tuple12", [], []), {"k": "ellipsis"},
                                   mutants.VDict([mutants.KV({"k": "ellipsis"}, mutants.VInt(1))]),
                                   mutants.VDict([mutants.KV(mutants.VStr([122, 122]), {"k": "ellipsis"})]),
-                                  mutants.VInf]
+                                  mutants.VInf, {"k": "uuid", "ver": 1, "id": 0}]
 
 
 def deep_cases(chk, nschemas, nprobes):
